@@ -391,6 +391,11 @@ def run(ctx: Check, tree: Tree) -> None:
     ctx.section(check_theta_hat, ctx, tree, A)
     ctx.section(check_scattering, ctx, tree, A)
     ctx.section(check_consumers, ctx, tree)
+    # the angle definitions are written in terms of m_0..m_3, m_12, m_23, m_13: these must be the very symbols
+    # (name AND assumptions) that the model defines as parameters / kinematic variables
+    from .c01 import check_sympairs
+
+    ctx.section(check_sympairs, ctx, tree)
     run.state = (A, exprs)  # type: ignore[attr-defined]
 
 
